@@ -190,6 +190,17 @@ func (w *hWorld) hProvenance(prop string) {
 				}
 			}
 			vnAssertK(ok, prop+".received-a-compatible-source", w.classifyProvenance(par, srcs))
+			if w.provFinding != "" {
+				// a classified finding only excuses re-labelling of a real same-typed source,
+				// never an invented, zero or stale value
+				same := false
+				for _, s := range srcs {
+					if s.L.T == r.T {
+						same = vnOr(same, r.ID == s.ID)
+					}
+				}
+				vnAssert(same, prop+".received-a-real-source-of-its-type")
+			}
 			vnCover(prop + ".parameter-checked")
 		}
 		srcs = append(srcs, ex.Out...)
